@@ -3,7 +3,7 @@ C03 — the default ranking follows the greedy max-residual (pivoted QR) rule.
 
 Lean: exact Gram/Schur model (`Model/Gram.lean`), theorems in `Props/C03.lean`.
 Correspondence: the real pivot trace of QR / CCQR() / GQR() / SSPOR is replayed through the exact model
-(ε-acceptance, ε = 1e-9·largest row norm); per-step float residual norms tapped from CCQR/GQR must equal
+(ε-acceptance with a per-step budget, DESIGN §3); per-step float residual norms tapped from CCQR/GQR must equal
 the exact Schur diagonal.  Oracle for the search: explicit Gram–Schmidt residuals in Fractions.
 """
 from __future__ import annotations
@@ -21,7 +21,7 @@ TRUSTED = [
     "Lean 4.33 kernel; axioms propext, Classical.choice, Quot.sound",
     "hand-written exact model Model/Gram.lean tied to the code by ε-acceptance of real pivot traces and per-step norm taps",
     "LAPACK geqp3: chooses a column of maximal residual norm (its output is judged on every sample)",
-    "IEEE-754 rounding is not modelled: pivots are judged with budget 1e-9·scale; steps after a (near-)zero exact pivot "
+    "IEEE-754 rounding is not modelled: pivots are judged with per-step budget 1e-12·max(scale·max(1, scale/ρ_min), |cost|max) (DESIGN §3); steps after a (near-)zero exact pivot "
     "whose float residual is non-zero are not judged (counted as truncated)",
 ]
 ASSUMPTIONS = [
@@ -50,7 +50,7 @@ def _handle_judgment(ctx, case, res, J, idx, label):
             f"{label}: step {J.rejected_step} ranks sensor {v['chosen']} (residual² {v['n2']}) although another unranked "
             f"sensor has a larger residual (ranking {res['ranking']})",
             {"signature": f"greedy-rule:{label}", "case": case.describe(), "observed": res["ranking"],
-             "step": J.rejected_step, "required": "pick within 1e-9·scale of the maximal residual norm", "index": idx, **info})
+             "step": J.rejected_step, "required": "pick within the step budget (1e-12·scale·conditioning) of the maximal residual norm", "index": idx, **info})
         return
     if J.norm_mismatch is not None:
         j, pos, f, e = J.norm_mismatch
